@@ -159,6 +159,12 @@ type hookLog struct {
 	peers []peer.ID
 }
 
+func (h *hookLog) reset() {
+	h.mu.Lock()
+	h.calls, h.peers = nil, nil
+	h.mu.Unlock()
+}
+
 func (h *hookLog) list() []cid.Cid {
 	h.mu.Lock()
 	defer h.mu.Unlock()
